@@ -291,6 +291,19 @@ Proof.
     destruct (h_kind r); simpl in *; try discriminate; auto.
 Qed.
 
+(* a non-address look-alike cannot reach a handler: handlers are reached only through the SDK router, whose
+   wrapper validates first *)
+Lemma reached_only_through_router :
+  direct_callers_ok gen_direct_callers = true /\ gen_router_validates_basic = true.
+Proof. vm_compute. split; reflexivity. Qed.
+
+(* whatever a folding guard lets through denotes the keeper's authority up to case folding, and with the
+   router's ValidateBasic (a decodable bech32 address: all lower or all upper case) in front it is a spelling
+   of the same account; the list of folding handlers is whatever the table says *)
+Lemma folding_handlers_fold : forall r, In (h_url r, h_name r) (folding_handlers gen_handlers) ->
+  forall gov a, lower_ascii gov -> guard_pass CmpEqualFold gov a = true -> fold a = gov.
+Proof. intros. apply guard_fold_lower_gov; assumption. Qed.
+
 (* ------------------------------------------------------------------ *)
 (* raw store update: compare-and-set *)
 
